@@ -79,7 +79,7 @@ Proof. exact parent_checks. Qed.
 (* the five boxes of pages and templates: arrays of exactly four numbers *)
 Theorem C10_rectangles :
   forallb (fun p => forallb (fun k => match walk shipped_tctx (p ++ [SKey k]) shipped_root with
-                                      | Some c => chk_eqf c (chk_of_kind VRect) | None => false end) box_keys)
+                                      | Some c => chk_eqb c (chk_of_kind VRect) | None => false end) box_keys)
           [p_page; p_template] = true
   /\ chk_of_kind VRect = CRep (TArr (CRep (TDisj [CRep (TPrim PInteger) None IAllowed; CRep (TPrim PReal) None IAllowed])
                                           None IAllowed) (Some 4)) None IAllowed.
